@@ -51,5 +51,42 @@ theorem blocked_fallback_src : blocked_fallback = blocked_fallback_expected := r
 /-- `NewBlockedResp` (`Agd.Filter.blockedResp`). -/
 def blocked_resp_cases_expected : String := "*BlockingModeCustomIP | *BlockingModeNullIP | dns.TypeA,dns.TypeAAAA | default | *BlockingModeNXDOMAIN | *BlockingModeREFUSED | default"
 theorem blocked_resp_cases_src : blocked_resp_cases = blocked_resp_cases_expected := rfl
+/-- `forClient` / `forGroup` (`Agd.Filter.assemble`): parental, rule lists, safe browsing; a custom filter only for a client. -/
+def for_client_calls_expected : String := "s.setParental,s.setRuleLists,s.setSafeBrowsing,s.custom.Get,composite.New"
+theorem for_client_calls_src : for_client_calls = for_client_calls_expected := rfl
+def for_group_calls_expected : String := "s.setParental,s.setRuleLists,s.setSafeBrowsing,composite.New"
+theorem for_group_calls_src : for_group_calls = for_group_calls_expected := rfl
+/-- The master switches and the pause schedule gate every individual switch. -/
+def set_parental_conds_expected : String := "!c.Enabled | pause != nil && pause.Contains(s.clock.Now()) | c.AdultBlockingEnabled | c.SafeSearchGeneralEnabled | c.SafeSearchYouTubeEnabled | len(c.BlockedServices) > 0 && s.services != nil"
+theorem set_parental_conds_src : set_parental_conds = set_parental_conds_expected := rfl
+def set_rule_lists_conds_expected : String := "!c.Enabled || len(c.IDs) == 0 | rl != nil"
+theorem set_rule_lists_conds_src : set_rule_lists_conds = set_rule_lists_conds_expected := rfl
+def set_safe_browsing_conds_expected : String := "!c.Enabled | c.DangerousDomainsEnabled | c.NewlyRegisteredDomainsEnabled"
+theorem set_safe_browsing_conds_src : set_safe_browsing_conds = set_safe_browsing_conds_expected := rfl
+def custom_get_cond_expected : String := "!c.Enabled || len(c.Rules) == 0"
+theorem custom_get_cond_src : custom_get_cond = custom_get_cond_expected := rfl
+def service_lists_conds_expected : String := "len(ids) == 0 | rl == nil"
+theorem service_lists_conds_src : service_lists_conds = service_lists_conds_expected := rfl
+/-- `FilterResponse` stops at the first answer with a verdict (`Agd.Filter.filterResponse`). -/
+def filter_response_conds_expected : String := "r != nil"
+theorem filter_response_conds_src : filter_response_conds = filter_response_conds_expected := rfl
+/-- `newBlockedCustomIPResp` (`Agd.Filter.blockedResp`, custom-IP branch). -/
+def custom_ip_conds_expected : String := "len(m.IPv4) > 0 | len(m.IPv6) > 0"
+theorem custom_ip_conds_src : custom_ip_conds = custom_ip_conds_expected := rfl
+def custom_ip_cases_expected : String := "dns.TypeA | dns.TypeAAAA | default"
+theorem custom_ip_cases_src : custom_ip_cases = custom_ip_cases_expected := rfl
+/-- `newRequestInfo`: a profile's own constructor replaces the server's unless it cannot be made (`Agd.Filter.ctorOf`). -/
+def requester_ctor_cond_expected : String := "ok | err != nil"
+theorem requester_ctor_cond_src : requester_ctor_cond = requester_ctor_cond_expected := rfl
+/-- The filters synthesise answers with the requester's constructor and see the normalised host. -/
+def flt_req_messages_expected : String := "ri.Messages"
+theorem flt_req_messages_src : flt_req_messages = flt_req_messages_expected := rfl
+def flt_req_host_expected : String := "ri.Host"
+theorem flt_req_host_src : flt_req_host = flt_req_host_expected := rfl
+/-- `respForFamily`: HTTPS gets the requester's blocked response (`Agd.Filter.hashRespMsg`). -/
+def hash_https_blocked_expected : String := "req.Messages.NewBlockedResp(req.DNS)"
+theorem hash_https_blocked_src : hash_https_blocked = hash_https_blocked_expected := rfl
+def hash_resp_conds_expected : String := "fam == netutil.AddrFamilyNone"
+theorem hash_resp_conds_src : hash_resp_conds = hash_resp_conds_expected := rfl
 
 end Agd.Tie.C02
